@@ -191,8 +191,21 @@ class Degrees:
         if isinstance(st, ast.If):
             self.ev(st.test, env, f)
             e1, e2 = dict(env), dict(env)
-            self._body(st.body, e1, f, rets)
-            self._body(st.orelse, e2, f, rets)
+            # the arm that runs under an EXACT zero (`if x == 0.0:` body, `if x != 0.0:` else) handles a degenerate input: 0 scales to 0, no homogeneity claim is made
+            # for what it computes (same rule as for the conditional expression; `t = r; if l != 0: t /= l` joins the two degrees silently as well)
+            t_ = st.test
+            zero_arm = None
+            if isinstance(t_, ast.Compare) and len(t_.ops) == 1 and isinstance(t_.ops[0], (ast.Eq, ast.NotEq)) \
+                    and any(isinstance(x, ast.Constant) and x.value in (0, 0.0) and not isinstance(x.value, bool) for x in (t_.left, t_.comparators[0])):
+                zero_arm = "body" if isinstance(t_.ops[0], ast.Eq) else "orelse"
+            for arm_, env_ in (("body", e1), ("orelse", e2)):
+                if arm_ == zero_arm:
+                    self._mute = getattr(self, "_mute", 0) + 1
+                try:
+                    self._body(getattr(st, arm_), env_, f, rets)
+                finally:
+                    if arm_ == zero_arm:
+                        self._mute -= 1
             for k in set(e1) | set(e2):
                 a, b = e1.get(k), e2.get(k)
                 env[k] = self._join1(a, b) if not (isinstance(a, tuple) or isinstance(b, tuple)) else (a if a == b else None)
@@ -282,8 +295,9 @@ class Degrees:
         if a is POSE or b is POSE:
             return POSE if (a is POSE and b is POSE) else None
         if _is_deg(a) and _is_deg(b) and a != b:
-            m = Mismatch(f, node, what, a, b)
-            self.mismatches.setdefault(m.key(), m)
+            if not getattr(self, "_mute", 0):
+                m = Mismatch(f, node, what, a, b)
+                self.mismatches.setdefault(m.key(), m)
             return None
         return self._join1(a, b)
 
